@@ -18,7 +18,7 @@ use crate::util::*;
 pub const PROP: Prop = Prop {
     id: "C02",
     level: "exploration",
-    rule: "(round 8: identifiers drawn uniformly from every alphabetic code point and from the letter numbers; a battery of initials from every corner of 'alphabetic') (rounds 6-7: atoms of 256 B .. 8 KiB on every printer option set and up to 64 (128) KiB on the Emacs Lisp pair; 130 and 300 copies of each small unit - empty vector, empty list, empty string, empty byte vector, nil, quote form ... - in one value, and generated wide values, on every printer option set) all 576 printer option sets are enumerated; for each, parser option sets are taken from compat(P) (quick: canonical, maximal and 4 seeded others; thorough: all 96/192) and values come from G_value restricted to names that are plain for that pair, plus a fixed battery of option-sensitive values; oracle = M_fold(P,Q,v) computed without the parser, and the independent reader for P's dialect; non-trivial = pair is not (default,default) and the value contains a construct whose spelling depends on an option (nil, bool, keyword, vector, bytes, char, string needing an escape); distinct by digest of (P,Q,value)",
+    rule: "(round 9: every length from 1 to 130 (600) of keyword, symbol, string and byte vector, ASCII and two-byte characters, on every printer option set) (round 8: identifiers drawn uniformly from every alphabetic code point and from the letter numbers; a battery of initials from every corner of 'alphabetic') (rounds 6-7: atoms of 256 B .. 8 KiB on every printer option set and up to 64 (128) KiB on the Emacs Lisp pair; 130 and 300 copies of each small unit - empty vector, empty list, empty string, empty byte vector, nil, quote form ... - in one value, and generated wide values, on every printer option set) all 576 printer option sets are enumerated; for each, parser option sets are taken from compat(P) (quick: canonical, maximal and 4 seeded others; thorough: all 96/192) and values come from G_value restricted to names that are plain for that pair, plus a fixed battery of option-sensitive values; oracle = M_fold(P,Q,v) computed without the parser, and the independent reader for P's dialect; non-trivial = pair is not (default,default) and the value contains a construct whose spelling depends on an option (nil, bool, keyword, vector, bytes, char, string needing an escape); distinct by digest of (P,Q,value)",
     assumptions: &[
         "compat(P), plain names per pair and M_fold as tabulated in DESIGN.md appendix A.1",
         "Nil printed as () or as false folds to the empty list / false (the printer option's documented meaning)",
